@@ -1029,6 +1029,10 @@ class IASolverBaseClass:  # pylint: disable=R0902
             aux = np.dot(Ukl_H, np.dot(Hkk, Vkl))
             numerator = np.dot(aux, aux.transpose().conjugate())
             denominator = np.dot(Ukl_H, np.dot(Bkl_all_l[l], Ukl))
+            if denominator.item() == 0:
+                # Perfectly aligned interference and no noise at all
+                SINR_k[l] = np.inf
+                continue
             SINR_kl = numerator.item() / denominator.item()
             # The imaginary part should be negligible
             SINR_k[l] = np.abs(SINR_kl)
